@@ -1261,6 +1261,19 @@ def run_c11(rep, rng, tier):
             files["a.fcp"] = module
         inputs.append((json.dumps(files, sort_keys=True), "module-error"))
         jobs.append({"files": files, "root": "main.fcp", "from_string": False})
+    # deep nesting: types and values nested tens to thousands of levels (balanced, or cut off in the middle); whatever the depth, the
+    # answer is a schema or an error value
+    for _ in range(max(4, n // 40)):
+        depth = rng.choice([30, 120, 350, 500, 1200, 4000])
+        inner = rng.choice(["u8", "Optional[u8]", "1"])
+        opener, closer = rng.choice([("[", "]"), ("Optional[", "]")]) if inner != "1" else ("[", "]")
+        nest = opener * depth + inner + closer * (depth if rng.random() < 0.7 else rng.randint(0, depth))
+        if inner == "1":
+            text = 'version: "3"\nstruct S {\n    x @ 0: u8,\n}\nimpl can for S {\n    id: ' + nest + ',\n}\n'
+        else:
+            text = 'version: "3"\nstruct S {\n    x @ 0: ' + nest + ',\n}\n'
+        inputs.append((text, "deep-nesting"))
+        jobs.append({"files": {"main.fcp": text}, "root": "main.fcp", "from_string": rng.random() < 0.5})
     # other line-ending conventions: the same texts with CR or CR LF between the lines (and a stray CR inside), an error of
     # some stage on a late line; whatever the parser makes of a CR, the lines it cites must exist in the text it was given
     for _ in range(n // 10):
@@ -1274,7 +1287,9 @@ def run_c11(rep, rng, tier):
         inputs.append((text, "line-endings"))
         jobs.append({"files": {"main.fcp": text}, "root": "main.fcp", "from_string": rng.random() < 0.6})
     ires = run_cases("harness.frontend", "w_parse", with_workroot(jobs, random.Random(len(jobs)), WORKROOT), timeout_s=60)
-    mres = run_driver_parallel(model_cases(jobs))
+    # (deeply nested texts are not sent to the reference front end: its answer would be a tree this harness cannot read back)
+    mres = run_driver_parallel(model_cases([j if st != "deep-nesting" else {"files": {"main.fcp": ""}, "root": "main.fcp"}
+                                            for (_, st), j in zip(inputs, jobs)]))
     for (text, stream), job, r, m in zip(inputs, jobs, ires, mres):
         rep.count(text)
         rep.hist("stream", stream)
